@@ -27,9 +27,16 @@ def theorems_of(module: str, only: list[str] | None = None) -> list[str]:
     return [prefix + n for n in names if only is None or n in only]
 
 
+ANALYSER_PARTS = {"C04": "C04a", "C05": "C05a", "C06": "C06a", "C07": "C07a"}
+"""second theorem file of a property: the analyser half (mypy nodes -> API model)"""
+
+
 def spec(prop: str, stages, extra_modules=(), extra_theorems=(), only=None):
     mods = [f"StubGen.Theorems.{prop}", *extra_modules]
     thms = theorems_of(f"StubGen.Theorems.{prop}", only) + list(extra_theorems)
+    if prop in ANALYSER_PARTS:
+        mods.append(f"StubGen.Theorems.{ANALYSER_PARTS[prop]}")
+        thms += theorems_of(f"StubGen.Theorems.{ANALYSER_PARTS[prop]}")
     return {"modules": mods, "theorems": thms, "stages": stages}
 
 
